@@ -101,7 +101,7 @@ def rule_abi(b):
                 problems.append("heap pointer %s is not initialised from the first argument register" % heap)
             fo = interp.run_fn(ctx.fx, crate + "::config::field_offset",
                                [Adt("axcut2backend::config::TemporaryNumber", "Fst", {}), tg.consts["FIELDS_PER_BLOCK"]["val"]])[1]
-            foff = fo[0].result.fields["val"] if fo and isinstance(fo[0].result, Adt) else None
+            foff = interp.sole_int(fo[0].result) if fo and isinstance(fo[0].result, Adt) else None
             if foff is None or m.r(free) != isa.norm(("add", init[isa.ARG_REGS[arch][0]], isa.const(foff))):
                 problems.append("free pointer %s is %s, expected heap + one block (%s)" % (free, isa.show(m.r(free)), foff))
             # alignment bookkeeping for CALL
@@ -233,6 +233,36 @@ def rule_spwriters(ctx):
                      "save_caller_save_registers and restore_caller_save_registers of each backend; with the pairing checked by "
                      "R-ABI this gives 'SP has its entry value at return' for every program")
     n = 0
+    from .. import callgraph
+    cg = callgraph.get(ctx)
+    rev = {}
+    for a_, bs_ in cg.edges.items():
+        for b_ in bs_:
+            rev.setdefault(b_.split("::{")[0], set()).add(a_.split("::{")[0])
+    COVERED = SP_WRITER_FNS | {"print_i64", "println_i64"}
+
+    def only_from_covered(k0):
+        """a helper all of whose callers (transitively, within its crate) are the functions R-ABI folds: the prologue / epilogue, the
+        save / restore helpers and the print calls - its stack-pointer writes are part of those folds"""
+        crate0 = fx.fns[k0]["crate"] if k0 in fx.fns else k0.lstrip("<").split("::")[0]
+        seen_, work_ = set(), [k0]
+        roots_ok = True
+        any_caller = False
+        while work_:
+            x_ = work_.pop()
+            if x_ in seen_:
+                continue
+            seen_.add(x_)
+            callers = {c_ for c_ in rev.get(x_, ()) if c_ in fx.fns and fx.fns[c_]["crate"] == crate0 and c_ != x_}
+            if x_ != k0 and x_.split("::")[-1] in COVERED:
+                continue
+            if not callers:
+                if x_ == k0 or x_.split("::")[-1] not in COVERED:
+                    roots_ok = False
+                continue
+            any_caller = True
+            work_.extend(callers)
+        return roots_ok and any_caller
     for b in ("x86_64", "aarch64"):
         crate = backend.BACKENDS[b]["crate"]
         code = backend.code_adt(b)
@@ -270,7 +300,7 @@ def rule_spwriters(ctx):
                     n += 1
                     base = key.split("::{")[0].split("::")[-1]
                     ikey = "%s@%s" % (key, v)
-                    if base in SP_WRITER_FNS:
+                    if base in SP_WRITER_FNS or only_from_covered(key.split("::{")[0]):
                         res.inst(ikey, s["sp"]["file"], s["sp"]["line"], "ok")
                     else:
                         res.inst(ikey, s["sp"]["file"], s["sp"]["line"], "violation")
